@@ -216,6 +216,13 @@ def step (s : St) (line : String) : St × String :=
     let (n, a) := InfluxVerif.Auth.authBegin verifyTok s.node (nm u) pw
     let n' := if a = .verified then InfluxVerif.Auth.authFinish n else n
     ({ s with node := n' }, if a = .rejected then "rejected" else "accepted")
+  | ["cpoll", csv] =>
+    -- a client's metadata cache under a sequence of answers: it keeps the newest it has seen
+    match allSome ((splitCsv csv).map String.toNat?) with
+    | some (x :: xs) =>
+      let held := (xs.foldl (fun (acc : List Nat × Nat) i => let c := InfluxVerif.Meta.clientInstall acc.2 i; (acc.1 ++ [c], c)) ([x], x)).1
+      (s, "ok " ++ joinCsv (held.map toString))
+    | _ => (s, "bad-op")
   | ["raw", _, _, "bad"] =>
     -- the command's own extension field is there but its payload does not decode (a length
     -- that runs past the end): the body must be refused, whatever the type
